@@ -60,6 +60,7 @@ def run(ctx: Any, prog: Program) -> None:
     ctx.rule('C10.B7', 'save() decides lump by lump, in rebuild order, whether a view is parsed (writers parse further views while saving)', floor=2)
     ctx.rule('C10.B8', 'lump writers do not modify header-level state (map revision, version, lump versions/flags)', floor=20)
     ctx.rule('C10.B9', 'the output separator used on save is the one observed in the entity lump, not guessed from the header version', floor=2)
+    ctx.rule('C10.B10', 'the LZMA header of a compressed lump describes the filter the stream was encoded with (the decoder is built from the header)', floor=4)
     ctx.rule('C10.B6', 'ParsedLump.__get__ caches the parsed value and blanks exactly to_clear', floor=2)
 
     order_node = bsp.global_assign('LUMP_REBUILD_ORDER')
@@ -367,6 +368,36 @@ def run(ctx: Any, prog: Program) -> None:
     glen = [n for n in walk_no_nested(sv) if isinstance(n, ast.Call) and dotted(n.func) == 'defer.set_data' and n.args and dotted(n.args[0]) == 'game_lump.id']
     ok = len(glen) == 1 and [ast.unparse(a) for a in glen[0].args[1:]] == ['file.tell()', 'len(game_lump.data)']
     ctx.shape('C10.B5', ok, bsp, glen[0] if glen else sv, 'the game-lump directory must record (offset, uncompressed length): read() reads `uncomp_size` bytes for uncompressed lumps', func='BSP.save', text='game lump (offset, length)')
+    # ---- B10: compress_lzma / decompress_lzma ----------------------------------------------------------------------------------
+    bf_ = prog.module('binformat')
+    cz, dz = bf_.func('compress_lzma'), bf_.func('decompress_lzma')
+    enc = [c for c in ast.walk(cz) if isinstance(c, ast.Call) and dotted(c.func) in ('lzma.compress', 'lzma.LZMACompressor')]
+    packs_ = [c for c in ast.walk(cz) if isinstance(c, ast.Call) and isinstance(c.func, ast.Attribute) and c.func.attr == 'pack' and len(c.args) == 5]
+    unp = [a for a in ast.walk(dz) if isinstance(a, ast.Assign) and isinstance(a.value, ast.Call) and isinstance(a.value.func, ast.Attribute) and a.value.func.attr.startswith('unpack') and isinstance(a.targets[0], ast.Tuple)
+           and len(a.targets[0].elts) == 5]
+    if len(enc) != 1 or len(packs_) != 1 or len(unp) != 1:
+        ctx.shape('C10.B10', False, bf_, cz, 'encoder call / 5-field header pack / 5-field unpack not found', func='compress_lzma', text='lzma header shape')
+    else:
+        filt_kw = next((k.value for k in enc[0].keywords if k.arg == 'filters'), None)
+        filt_name = dotted(filt_kw.elts[0]) if isinstance(filt_kw, ast.List) and len(filt_kw.elts) == 1 else None
+        ctx.shape('C10.B10', filt_name is not None, bf_, enc[0], 'the encoder is given one named filter dictionary', func='compress_lzma', text='lzma encoder filter')
+        rnames = [dotted(e) for e in unp[0].targets[0].elts]
+        hdr = dict(zip(rnames, packs_[0].args))
+        # dict_size: the header value is the filter's own entry
+        ds = hdr.get('dict_size')
+        same = ds is not None and isinstance(ds, ast.Subscript) and dotted(ds.value) == filt_name and isinstance(ds.slice, ast.Constant) and ds.slice.value == 'dict_size'
+        ctx.check('C10.B10', same, bf_, ds if ds is not None else packs_[0], f'the header stores `{ast.unparse(ds) if ds is not None else "?"}` as dictionary size, but the stream is encoded with `{filt_name}[\'dict_size\']`: '
+                  'decompress_lzma builds its decoder from the header, and a dictionary smaller than the distances used in the stream makes the lump undecodable ("Corrupt input data")', func='compress_lzma', text='header dict_size is the encoder\'s')
+        # props: (pb * 5 + lp) * 9 + lc of the same filter
+        pr = hdr.get('props')
+        pdef = next((a.value for a in ast.walk(cz) if isinstance(a, ast.Assign) and isinstance(pr, ast.Name) and dotted(a.targets[0]) == pr.id), pr)
+        psrc = ast.unparse(pdef).replace(' ', '') if pdef is not None else ''
+        want = f"({filt_name}['pb']*5+{filt_name}['lp'])*9+{filt_name}['lc']"
+        ctx.check('C10.B10', psrc == want, bf_, pdef if pdef is not None else packs_[0], f'props byte is `{psrc}`; the decoder splits it as lc = p % 9, lp = (p // 9) % 5, pb = (p // 9) // 5, i.e. it must be `{want}`', func='compress_lzma', text='header props formula')
+        dsrc = ast.unparse(dz).replace(' ', '')
+        ctx.check('C10.B10', 'lc=props%9' in dsrc and 'props//=9' in dsrc and 'pb=props//5' in dsrc and 'lp=props%5' in dsrc, bf_, dz, 'decompress_lzma splits props as lc = p % 9; p //= 9; pb = p // 5; lp = p % 5', func='decompress_lzma', text='props split')
+        sizes = (ast.unparse(hdr.get('uncomp_size')) if hdr.get('uncomp_size') is not None else '', ast.unparse(hdr.get('comp_size')) if hdr.get('comp_size') is not None else '')
+        ctx.check('C10.B10', sizes[0] == f'len({cz.args.args[0].arg})' and sizes[1].startswith('len('), bf_, packs_[0], f'header sizes are {sizes}: uncompressed length of the input, then length of the encoded stream', func='compress_lzma', text='header sizes')
     # ---- B6 --------------------------------------------------------------------------------------------
     g_ = bsp.func('ParsedLump.__get__')
     src = ast.unparse(g_)
@@ -385,6 +416,8 @@ def run(ctx: Any, prog: Program) -> None:
 
 
 MUTANTS = [
+    {'id': 'lzma_header_dict_fitted_to_data', 'file': 'binformat.py', 'find': "        props, LZMA_FILT['dict_size'],  # Filter options encoded together.", 'replace': "        props, max(LZMA_DIC_MIN, 1 << (len(data).bit_length() - 1)),", 'expect': 'C10.B10'},
+    {'id': 'lzma_props_lc_lp_swapped', 'file': 'binformat.py', 'find': "    props = (LZMA_FILT['pb'] * 5 + LZMA_FILT['lp']) * 9 + LZMA_FILT['lc']", 'replace': "    props = (LZMA_FILT['pb'] * 5 + LZMA_FILT['lc']) * 9 + LZMA_FILT['lp']", 'expect': 'C10.B10'},
     {'id': 'separator_from_version', 'file': 'bsp.py', 'find': "        vmf = VMF()\n", 'replace': "        vmf = VMF()\n        if self.out_comma_sep is None:\n            self.out_comma_sep = self.version < VERSIONS.L4D2.value\n", 'expect': 'C10.B9'},
     {'id': 'save_snapshots_parsed_views', 'file': 'bsp.py', 'find': "        for lump_or_game in LUMP_REBUILD_ORDER:\n            try:\n                data = self._parsed_lumps.pop(lump_or_game)", 'replace': "        for lump_or_game in [x for x in LUMP_REBUILD_ORDER if x in self._parsed_lumps]:\n            try:\n                data = self._parsed_lumps.pop(lump_or_game)", 'expect': 'C10.B7'},
     {'id': 'ents_writer_sets_revision', 'file': 'bsp.py', 'find': "    def _lmp_write_ents(self, vmf: VMF) -> bytes:\n", 'replace': "    def _lmp_write_ents(self, vmf: VMF) -> bytes:\n        self.map_revision = vmf.map_ver\n", 'expect': 'C10.B8'},
